@@ -37,6 +37,7 @@ SEQUENTIAL = {
        T('rt-256', 'base', 'mode=rt', 'ns=256', 'variants=2'),
        T('rt-recycle', 'base', 'mode=recycle', *RECYCLED_CLASSES),
        T('rt-prefix', 'base', 'mode=prefix'),
+       T('names', 'base', 'mode=names'),
        # the same explorer one size step smaller under ASan+UBSan
        T('matrix-asan', 'asan', 'mode=matrix', NOCOUNT),
        T('cast-asan', 'asan', 'mode=cast', NOCOUNT)]
@@ -45,7 +46,8 @@ SEQUENTIAL = {
     + [T('rt-small-asan', 'asan', 'mode=rt', 'ns=0,1,2,3,4,31', 'pool=7', 'variants=2', NOCOUNT),
        T('rt-256-asan', 'asan', 'mode=rt', 'ns=255,256', 'variants=1', 'stride=16', NOCOUNT),
        T('rt-recycle-asan', 'asan', 'mode=recycle', NOCOUNT, *RECYCLED_CLASSES, env=NOQUARANTINE),
-       T('rt-prefix-asan', 'asan', 'mode=prefix', NOCOUNT)]
+       T('rt-prefix-asan', 'asan', 'mode=prefix', NOCOUNT),
+       T('names-asan', 'asan', 'mode=names', NOCOUNT)]
   ),
   'thorough': (
     [T('matrix', 'base', 'mode=matrix', NOCOUNT),
@@ -59,6 +61,7 @@ SEQUENTIAL = {
        T('rt-256', 'base', 'mode=rt', 'ns=256', 'kinds=2', 'variants=3'),
        T('rt-recycle', 'base', 'mode=recycle', 'full=1', *RECYCLED_CLASSES),
        T('rt-prefix', 'base', 'mode=prefix'),
+       T('names', 'base', 'mode=names', 'full=1'),
        T('matrix-asan', 'asan', 'mode=matrix', NOCOUNT),
        T('cast-asan', 'asan', 'mode=cast', NOCOUNT)]
     + shards('pairs-asan', 'asan', 8, 'mode=hist', 'depth=2', ALL_EPS, NOCOUNT)
@@ -68,7 +71,8 @@ SEQUENTIAL = {
        T('rt-31-255-asan', 'asan', 'mode=rt', 'ns=31,255', 'variants=2', NOCOUNT),
        T('rt-256-asan', 'asan', 'mode=rt', 'ns=256', 'variants=2', NOCOUNT),
        T('rt-recycle-asan', 'asan', 'mode=recycle', 'full=1', NOCOUNT, *RECYCLED_CLASSES, env=NOQUARANTINE),
-       T('rt-prefix-asan', 'asan', 'mode=prefix', NOCOUNT)]
+       T('rt-prefix-asan', 'asan', 'mode=prefix', NOCOUNT),
+       T('names-asan', 'asan', 'mode=names', 'full=1', NOCOUNT)]
   ),
 }
 
@@ -132,7 +136,23 @@ CHECK = {
            '40-byte names differing at byte 33, a 64-byte name that is a prefix of a 100-byte one, two 255-byte names differing '
            'in the last byte): every subset in every declaration order (1956 types) x 12 lookup orders; and two LIVE class objects '
            'of one name (the static class and a run-time class object called "Pri" / "K10") asking in either order on 10 types '
-           '(5120 histories). Run-time class objects record size 0, one member or the full struct. cast (besides the same-name block: 8 type objects - Int, String, Array, run-time types of those names, two live run-time '
+           '(5120 histories). Run-time class objects record size 0, one member or the full struct. '
+           'names = classes whose NAME collides with what a type record carries besides its instances - the two entries '
+           '{"__Name", name string} and {"__Size", size} that precede the instance list have the shape of an instance entry: 18 '
+           'class objects called "__Name", "__Size" (a run-time and a statically declared class object each), "__", "__Type", '
+           '"__Cache", "__Parent", "__Methods", "__Header", "__name", "__size", "__Nam", "__Name_", "__Siz", "__Size_", "" (the '
+           'empty name) and "_", plus per type the type object ITSELF asked as a class and a run-time class called like the type; '
+           'asked of the 71 exported types (cold image), 13 statically declared user types (among them the class objects __Name / '
+           '__Size and three types that DECLARE instances of __Name / __Size) and 19 shapes of run-time types x {new_raw, new_root} '
+           '(no instances; ordinary instances; instances of the colliding names first / in the middle / last of up to 256; types '
+           'themselves CALLED "__Name", "__Size", "__", ""; a type declaring a class of its own name; sizes 0, 1, 8, 16, 24, 40, 512). '
+           'Oracle as everywhere: a type answers for a class iff it declares an instance under exactly that name (independent walk '
+           'that starts AFTER the two entries; for run-time types the list given to new), else none / false / ClassError. Histories '
+           'from the cold record: cell = lookup; same lookup and lookup; next entry point, for each of 12 entry points x member; mix '
+           '= the colliding class alternating with a real class (a rotating class of Cello.h, and the first class the type declares) '
+           'in both orders over entry-point pairs; two = every ordered pair of the 20 colliding classes alternating; sweep = all 20 '
+           'one after the other (8 starting entry points x 2 directions), then every class of Cello.h and every colliding class '
+           'again, then c_str(T) and size(T) are still what the type was made with. cast (besides the same-name block: 8 type objects - Int, String, Array, run-time types of those names, two live run-time '
            'types both called RtSame - all 64 pairs, and Table/Tree of Int offered an object of the run-time "Int") = all ordered '
            'pairs of exported types, for a harness object of the type and for the type object itself. '
            'states = distinct (type, configuration) pairs reached (interned) in the deepest history family of the tier (pairs in '
@@ -150,11 +170,15 @@ CHECK = {
               'n in {0,1,2,3,4,31,255,256}: all permutations of all n-subsets of an 8-class pool x 2 member variants for n<=4, '
               'all rotations x 2 variants above, 290-class lookup universe; recycled type blocks: 32 classes x n in {1,3} x 8 x 8 '
               'entry points x {other instance, class absent} x members (10112 cases; thorough x {del_raw, del_root}) + 316 '
-              'alternating-type cases; prefix-named and long-named classes: 39000 + 23472 run-time and 6720 static-type histories; cast 71x71x2; ASan+UBSan: matrix, cast, pairs over '
+              'alternating-type cases; prefix-named and long-named classes: 39000 + 23472 run-time and 6720 static-type histories; '
+              'class names colliding with record entries: 122 type objects x 20 classes x (36 cell + <= 64 mix + 160 two-name) '
+              'histories + 16 sweeps each (603832 histories; entry-point pairs: 2 per first entry point in mix, 1 in two-name); '
+              'cast 71x71x2; ASan+UBSan: matrix, cast, pairs over '
               'a 151-operation alphabet, long histories every 7th rotation, run-time n<=31 full and 255/256 every 16th rotation'),
     'thorough': ('as quick plus all ordered TRIPLES over the 240-operation alphabet (8 public entry points x 30 classes) per '
                  'type from cold (9.8e8 histories); run-time types n in {0..5,8,17,18,19,31,32,64,128,255,256}, '
-                 '10-class pool, 3 member variants, forward and reversed base lists; ASan+UBSan: matrix, cast, all pairs over '
+                 '10-class pool, 3 member variants, forward and reversed base lists; colliding class names with ALL 64 entry-point '
+                 'pairs in the mix and two-name histories (3.7e6 histories, also under ASan+UBSan); ASan+UBSan: matrix, cast, all pairs over '
                  'the full alphabet, all long histories, triples over a 90-operation alphabet, the quick run-time bound'),
   },
   'assumptions': [
@@ -165,7 +189,8 @@ CHECK = {
     'objects of each type are harness buffers initialised with header_init only (nothing is constructed); members of built-in '
     'instances are never invoked, only run-time instances (counted stubs) are',
     'histories longer than 3 lookups are covered by the long-history family and the run-time sweeps, not by all sequences',
-    'run-time classes have distinct names; a type declaring the same class twice is not explored',
+    'run-time classes have distinct names except where the rule says otherwise (alias and names families: two live class objects of '
+    'one name); a type declaring the same class NAME twice is not explored',
     'the class/member table is written by hand and checked against sizeof/offsetof at start-up and against the extern/struct '
     'declarations of the Cello.h actually used (mismatch => exhaustive:false)',
     'gcc/clang, glibc and the sanitizer run-times are trusted',
